@@ -13,11 +13,18 @@ package validation
 //@   tags C17
 //@   ensures [C17] (len(result) == 0) == (completionStrategy == v1alpha1.AllSuccessful || completionStrategy == v1alpha1.AnySuccessful)
 
+// a matrix can be expanded into its cartesian product only if every key has at least one value (C14, C17)
+//@ pure valsOK(vs []string) bool = len(vs) > 0 && (forall j int :: 0 <= j && j < len(vs) ==> len(vs[j]) > 0)
+//@ pure matrixOK(m map[string][]string) bool = forall k string :: (k in m) ==> valsOK(m[k])
+
 //@ func Validator.validateParallelismSpecWithMatrix
-//@   tags C14
+//@   tags C14, C17
 //@   loop 1 invariant len(allErrs) >= 0
-//@   loop 2 invariant len(allErrs) >= 0
-//@   ensures len(result) >= 0
+//@   loop 1 invariant len(allErrs) == 0 ==> (forall k string :: {visited(k)} visited(k) ==> valsOK(withMatrix[k]))
+//@   loop 2 invariant -1 <= rangeindex && rangeindex < len(vals) && len(allErrs) >= 0 && vals == withMatrix[key]
+//@   loop 2 invariant len(allErrs) == 0 ==> len(vals) > 0 && (forall j int :: 0 <= j && j <= rangeindex ==> len(vals[j]) > 0)
+//@   loop 2 invariant len(allErrs) == 0 ==> (forall k string :: {visited(k)} visited(k) && k != key ==> valsOK(withMatrix[k]))
+//@   ensures [C14,C17] accepted-matrix-can-be-expanded: len(result) == 0 && len(withMatrix) > 0 ==> matrixOK(withMatrix)
 
 // Admission accepts a parallelism spec only if exactly one type is given, a count is positive and keys are non-empty (C14, C17)
 //@ pure numTypes(spec *v1alpha1.ParallelismSpec) Int = (spec.WithCount != nil ? 1 : 0) + (len(spec.WithKeys) > 0 ? 1 : 0) + (len(spec.WithMatrix) > 0 ? 1 : 0)
@@ -30,4 +37,5 @@ package validation
 //@   ensures [C14,C17] accepted-means-exactly-one-type: len(result) == 0 ==> numTypes(spec) == 1
 //@   ensures [C14,C17] accepted-count-is-positive: len(result) == 0 && spec.WithCount != nil ==> *spec.WithCount > 0
 //@   ensures [C14,C17] accepted-keys-are-non-empty: len(result) == 0 && spec.WithCount == nil && len(spec.WithKeys) > 0 ==> (forall k int :: 0 <= k && k < len(spec.WithKeys) ==> len(spec.WithKeys[k]) > 0)
+//@   ensures [C14,C17] accepted-matrix-can-be-expanded: len(result) == 0 && spec.WithCount == nil && len(spec.WithKeys) == 0 && len(spec.WithMatrix) > 0 ==> matrixOK(spec.WithMatrix)
 //@   ensures [C17] accepted-strategy-is-known: len(result) == 0 ==> spec.CompletionStrategy == v1alpha1.AllSuccessful || spec.CompletionStrategy == v1alpha1.AnySuccessful
